@@ -30,7 +30,11 @@ TKind == /\ Ev.e = "kind" /\ ~Ev.panic /\ Ev.reparse_ok
 \* ORDER BY keys and directions, SKIP / LIMIT values, updating clauses in order, node or relationship query)
 TC10Q == /\ Ev.e = "c10q" /\ ~Ev.panic
          /\ Ev.built => (Ev.reparse_ok /\ Ev.note = "" /\ Ev.parsed = Ev.expected)
-TNext == l <= Len(TraceLog) /\ (TC10 \/ TC07 \/ TKind \/ TC10Q) /\ l' = l + 1
+\* literals: the text rendered for a comparison against a literal parses back to a literal of the same type and value
+\* (a negative number comes back as a minus applied to a number: the harness reads that as the negative number)
+TC10Lit == /\ Ev.e = "c10lit" /\ ~Ev.panic
+           /\ Ev.rendered => (Ev.reparse_ok /\ Ev.parsed_type = Ev.expected_type /\ Ev.same_value)
+TNext == l <= Len(TraceLog) /\ (TC10 \/ TC07 \/ TKind \/ TC10Q \/ TC10Lit) /\ l' = l + 1
 TSpec == TInit /\ [][TNext]_l
 HW == TLCSet(1, IF l > TLCGet(1) THEN l ELSE TLCGet(1))
 Accepted == IF TLCGet(1) = Len(TraceLog) + 1 THEN TRUE ELSE PrintT(<<"STUCK_AT_LINE", TLCGet(1)>>) /\ FALSE
